@@ -130,4 +130,8 @@ theorem mem_atomsOf_xor {w : Nat} {m : Mods} {s : Bytes} {a : Atom} (h0 : a ∈ 
   rw [List.mem_flatMap]
   exact ⟨a, h0, List.mem_map.mpr ⟨k, hk, rfl⟩⟩
 
+theorem mem_ite_singleton {α : Type} {c : Bool} {x v : α} (h : v ∈ (if c = true then [x] else [])) : c = true ∧ v = x := by
+  cases c <;> simp_all
+
+
 end YaraModel.Text
